@@ -434,6 +434,12 @@ LIB_ASSUMPTIONS = [
 ]
 
 LIB_SPECS = {
+    "C06": dict(shards=16, n=dict(quick=6000, thorough=60000),
+                floors={"histories_nontrivial": 20000, "failed_ops": 200000, "offers_taken": 100000, "offers_committed_fresh": 20000, "stale_commits_attempted": 30000, "twin_compared": 30000, "releases": 100000, "reallocs_changed": 20000},
+                rule="N allocator histories per shard: a generated node set (2-8 nodes, DRAM/PMEM/HBM profiles, memory-less/movable/CPU-less nodes, 7 distance shapes, 37% with custom ExpandZone/HandleOvercommit) driven through 36-56 generated Allocate/GetOffer/Commit/Realloc/Release operations (sizes up to > capacity, unknown nodes, unavailable types, all priorities, every public request constructor) plus a final sweep committing every pooled offer; a public-observer snapshot (requests, AssignedZone of every id ever used, ZoneUsage of all 2^n masks) before and after every call; a lock-step twin allocator for offer-vs-direct-allocate; distinct = histories with >=1 failed op and >=1 offer"),
+    "C07": dict(shards=16, n=dict(quick=6000, thorough=60000),
+                floors={"histories_nontrivial": 20000, "ops_that_moved_others": 20000, "ops_allocate_ok": 200000, "ops_commit_ok": 30000, "reallocs_changed": 20000},
+                rule="same workload as C06; after every successful Allocate/Realloc/Commit: Hall fit over all 2^n node subsets, strict types, normal memory in every new zone, superset-only moves, reservations never moved, Realloc never removes nodes, returned updates = exactly the changed assignments; distinct = operations that moved other allocations"),
     "C08": dict(shards=16, n=dict(quick=5, thorough=40), tmpfs=True,
                 floors={"machines": 40, "calls_alloc": 50000, "calls_release": 20000, "hybrid_machines": 3, "error_expected_and_got": 1000},
                 rule="N synthetic machines per shard (<=64 CPUs, hybrid/L2-cluster/offline/cpufreq variety), <=3000 checked AllocateCpus/ReleaseCpus calls each over biased subsets S of the online CPUs, counts 0..|S|+1, 5 priorities x 17 flag masks; thorough: machines with <=10 online CPUs are enumerated completely; non-trivial = call with 0<n<|S|, distinct by (machine shape, |S|, n, priority, flags)"),
@@ -602,7 +608,7 @@ for _p in RM_SPECS:
     CHECKS[_p] = check_rm
 for _p in MODE_SPECS:
     CHECKS[_p] = check_modes
-for _p in ("C08", "C16", "C19", "C20"):
+for _p in ("C06", "C07", "C08", "C16", "C19", "C20"):
     CHECKS[_p] = check_lib
 CHECKS["C17"] = check_c17
 CHECKS["C15"] = check_c15
@@ -646,4 +652,4 @@ def main(argv):
         return 2
 
 
-REPLAYS = {"C08": replay_lib, "C16": replay_lib, "C19": replay_lib, "C20": replay_lib, "C17": replay_c17}
+REPLAYS = {"C06": replay_lib, "C07": replay_lib, "C08": replay_lib, "C16": replay_lib, "C19": replay_lib, "C20": replay_lib, "C17": replay_c17}
